@@ -24,7 +24,10 @@ TRUSTED = ["CPython 3.12", "z3 5.1.0 / cvc5 1.0.3", "pyvc encoding of Python sem
            "external (contracts.mapping_c EXTERNALS) collections.defaultdict(set): empty dict whose missing-key read inserts set()",
            "attr:BasePair3D.is_canonical (PURE_ATTRS): a pure function of the frozen record value; nothing else about it is used",
            "contracts.mapping_ext_c uses the same two externals (defaultdict, sorted on a set) for Mapping2D3D.bpseq@body and introduces no new one",
-           "BpSeq.dot_bracket of common.py (C02) as read by Mapping2D3D.dot_bracket / extended_dot_bracket: a model field of the BpSeq object holding a DotBracket with a str `structure`; nothing about that text is assumed"]
+           "BpSeq.dot_bracket of common.py (C02) as read by Mapping2D3D.dot_bracket / extended_dot_bracket: a model field of the BpSeq object holding a DotBracket with a str `structure`; nothing about that text is assumed",
+           "external (contracts.mapping_ext_c EXTERNALS) str.join, only as '\\n'.join(<list of str>): a str that is a deterministic function of the list (uninterpreted py_join of length and elements); nothing else about the joined text is assumed (used by Mapping2D3D.dot_bracket and all_dot_brackets; spec name join_nl)",
+           "BpSeq.all_dot_brackets of common.py (C16) as read by Mapping2D3D.all_dot_brackets: a model field of the BpSeq object holding a list of DotBracket objects; nothing about the texts is assumed",
+           "pyvc: write-back of a mutated list through a tuple component (`result[-1][1].append(x)`: engine.assign_to, Load-context access path only; a real item store into a tuple stays unsupported) - value semantics, exact as long as the component list has no alias; cross-checked against CPython on 72 evaluations of two bodies"]
 ASSUMPTIONS = ["each residue is named the same way (label+auth, label only, or auth only) throughout one pair list; orientation of a pair (which residue is first, hence which of cWH / cHW labels its row) follows the order of the names the list carries",
                "pair lists name nucleotide residues; self pairs are not generated (requires no_self_pairs: an entry whose two residues both resolve never resolves them to the same 3D residue); Saenger labels are a function of (bases, class) within one list",
                "structure: the nucleotide residues of Structure3D.residues are pairwise different values (==), i.e. usable as distinct dict keys (requires distinct_nucleotides)",
@@ -37,13 +40,16 @@ ASSUMPTIONS = ["each residue is named the same way (label+auth, label only, or a
                "BpSeq.__post_init__ (common.py) is not modelled: BpSeq.pairs of the returned object is unconstrained; it cannot raise on Entry rows",
                "the clause 'keeps every canonical pair that conflicts with no other' is stated for the entry in 5'->3' orientation (nt1 < nt2 by Residue.__lt__); both orientations are always in Mapping2D3D.base_pairs (proved), an entry whose two residues are not strictly ordered either way (same chain, number, icode) is not covered",
                "set iteration order is arbitrary in the engine; which of two conflicting pairs survives is deliberately unspecified (the property does not say)",
-               "(mapping_ext_c) cached_property rule, as for base_pairs: Mapping2D3D.strands_sequences read by a caller is the model field strands_value (assumed callee contract strands_callee; the BODY of strands_sequences is not under contract), Mapping2D3D.bpseq read by a caller is the model field bpseq_value (clause `result == self.bpseq_value`; the other clauses are proved against the body as Mapping2D3D.bpseq@body)",
+               "(mapping_ext_c) cached_property rule, as for base_pairs: Mapping2D3D.strands_sequences read by a caller is the model field strands_value (assumed callee contract strands_callee; the body is under the prefix contract Mapping2D3D.strands_sequences@body, see EXPLANATION (8)), Mapping2D3D.bpseq read by a caller is the model field bpseq_value (clause `result == self.bpseq_value`; the other clauses are proved against the body as Mapping2D3D.bpseq@body)",
                "(mapping_ext_c) Mapping2D3D.strand_offsets is a specification-only field: requires offsets_ok pins it to the prefix sums of the strand lengths of strands_value (always satisfiable, restricts no input)",
                "(mapping_ext_c) rows / used_in_row of extended_dot_bracket hold list / set OBJECTS with identity (classes PairRow 'boxed_list', ResSet 'boxed_set'): every `[]` / `set()` display assigned to row / used creates a new heap object, row.append / used.add write that object's content field, aliases (elements of rows / used_in_row, the zip loop variables) denote the same object",
                "(mapping_ext_c) LeontisWesthof is the real Enum class there (`for lw in LeontisWesthof` runs over its 18 members in definition order as a symbolic member, lw.value is the member's real value); the field lw of BasePair / BasePair3D is declared enum[LeontisWesthof] (ordinal) and ENUM_ORDINAL_EQ makes `base_pair.lw == lw` the comparison of ordinals",
                "(mapping_ext_c) assumed callee contracts, each PROVED as a target of this property in contracts.mapping_c and not re-proved under the class table of mapping_ext_c (which differs only in the representation of the field lw, which none of them reads): Mapping2D3D.__generate_bpseq, Mapping2D3D._generated_bpseq_data, Mapping2D3D.base_pairs, Residue3D.is_connected",
                "(mapping_ext_c) a row (list object) passed to __generate_bpseq stands for its content at the time of the call; the engine checks syntactically that the callee's body neither changes nor passes on that parameter",
-               "(mapping_ext_c) extended_dot_bracket and dot_bracket are under PREFIX contracts: verified up to, not including, the final '\\n'.join of the table of lines; the returned string itself is not under contract"]
+               "(mapping_ext_c) extended_dot_bracket is under a PREFIX contract: verified up to, not including, the final '\\n'.join of the table of lines; the returned string itself is not under contract (dot_bracket and all_dot_brackets are under full contracts: the returned text is py_join of the proved lines)",
+               "(mapping_ext_c) strands_sequences@body is a PREFIX contract: verified up to, not including, the final comprehension [(chain, ''.join(sequence)) ...]; the clauses speak of the local list of (chain, list of pieces). That text t of strands_value is the concatenation of the pieces of strand t - and hence as long as the number of pieces exactly when every one-letter name has length one (Residue3D.one_letter_name is a str field; the readers only ever store one character) - is NOT proved by the engine (join over a symbolic list)",
+               "(mapping_ext_c) the inner lists of strands_sequences (`[name]` displays inside the tuples appended to `result`) are modelled with value semantics and write-back through the access path result[-1][1]; exact because each list is created by its own display, is reachable only through its tuple in `result`, and no alias of it is ever taken (syntactic observation on the body)",
+               "(mapping_ext_c) Mapping2D3D.__generate_bpseq@numbering re-proves the body of __generate_bpseq under the class table of mapping_ext_c as a PREFIX contract (cut at the final return) and states the numbering rule over its locals; that strands_sequences and __generate_bpseq agree (same positions, same total length) follows from the two proved at-stop statements - the same start, the same step 1 + gapcount over the same filtered nucleotide list - by the SMT lemma same_numbering (induction, proved); instantiating the lemma with the two statements is a meta-level step (no function has both sets of locals in scope), not an engine proof"]
 EXPLANATION = ("Deductive (pyvc, sidecar contracts/mapping_c.py, real source re-read on every run): "
                "(1) Mapping2D3D.__generate_bpseq(base_pairs) under `requires` distinct nucleotides + the pair list is a matching over 3D residues: "
                "entries are numbered 1..N (index_ == position), the BPSEQ is valid (pair in range, != self, symmetric => at most one partner), every numbered "
@@ -58,8 +64,8 @@ EXPLANATION = ("Deductive (pyvc, sidecar contracts/mapping_c.py, real source re-
                "(3) Mapping2D3D.base_pairs (lifting): the result is duplicate-free, consists only of liftings / reversed liftings of input entries whose two "
                "residues resolve (dangling entries dropped), contains the lifting and its reverse of every such entry, has no self pairs; BasePair3D.reverse "
                "swaps the residues and reverses the class; Structure3D.find_residue returns the residue registered under the label, else under the auth id, else None. "
-               "NOT under contract (bounded stand-in only): the body of strands_sequences (agreement of its gap computation with the BPSEQ numbering; its value is a model field for the callers), "
-               "all_dot_brackets, the final '\\n'.join of dot_bracket / extended_dot_bracket, and the link from a BPSEQ to its dot-bracket text (BpSeq.dot_bracket: C02). Order of first occurrence in base_pairs is not proved. "
+               "NOT under contract (bounded stand-in only): the final comprehension of strands_sequences that joins every strand's pieces into its text, the final join of extended_dot_bracket, "
+               "and the link from a BPSEQ to its dot-bracket text (BpSeq.dot_bracket: C02; BpSeq.all_dot_brackets: C16). Order of first occurrence in base_pairs is not proved. "
                "(4) second sidecar contracts/mapping_ext_c.py (vocabulary of mapping_c imported): Mapping2D3D.extended_dot_bracket, prefix contract up to the final join, `rows` / `used_in_row` as lists of list / set objects with identity, "
                "the loop over LeontisWesthof symbolic in the class. Invariants of the pair loop, each a named obligation: the row / set objects are pairwise distinct and created by the loop; every row is non-empty and a MATCHING over the 3D residues "
                "(no residue in two of its pairs, no self pair) - so the precondition matching(row) of __generate_bpseq is PROVED at the call site (the clause both repaired defects dd9a38e / 0e0063f broke), and by (1) each row's BPSEQ is valid and "
@@ -68,8 +74,16 @@ EXPLANATION = ("Deductive (pyvc, sidecar contracts/mapping_c.py, real source re-
                "headed by '    >strand_<chain>' and 'seq <sequence>', all blocks equally long; line 2+k of block t is '<class value> ' + piece k,t; piece k,t is the slice of the k-th printed row's text at the strand's offset and of the strand's length "
                "('as long as the sequence'); that text is the dot_bracket.structure of a BPSEQ object that is valid (symmetric, in range: no index carries two partners). "
                "(5) __generate_dot_bracket_per_strand(text): one text per strand, the t-th being text[offset_t : offset_t + len(sequence_t)], offsets = prefix sums of the strand lengths ('the per-strand text concatenates to exactly that sequence and matching' at the level of slices). "
-               "(6) dot_bracket (prefix contract): three lines per strand - '>strand_<chain>', the sequence, the strand's slice of self.bpseq.dot_bracket.structure. "
-               "(7) bpseq wrapper (@body): its copy of the conflict-resolution loop terminates and raises nothing; the result (first component of _generated_bpseq_data) is numbered 1..N and a valid BPSEQ.")
+               "(6) dot_bracket (full contract): the returned text is the newline-join (uninterpreted py_join) of the lines LINES, three per strand - '>strand_<chain>', the sequence, the strand's slice of self.bpseq.dot_bracket.structure. "
+               "(7) bpseq wrapper (@body): its copy of the conflict-resolution loop terminates and raises nothing; the result (first component of _generated_bpseq_data) is numbered 1..N and a valid BPSEQ. "
+               "(8) strands_sequences@body (prefix contract up to the final joining comprehension; the in-place `result[-1][1].append(..)` on a list inside a tuple is executed by a generic engine handler): at the cut, with NU the nucleotide residues in file order "
+               "(filtered), FLAT the pieces of all strands one after the other, OFF the strands' start offsets: OFF are the prefix sums of the strands' lengths and len(FLAT) their total ('the concatenation'), no strand is empty; nucleotide k stands at FLAT[POS[k]] with its "
+               "one-letter name, POS[0] == 0 and POS[k+1] == POS[k] + 1 + gapcount(NU[k], NU[k+1]) - exactly max(0, dnumber-1) placeholders where find_gaps and not is_connected and same chain, none elsewhere - and len(FLAT) == POS[last] + 1; every position of FLAT that is "
+               "not a POS[k] holds '?'; nucleotide k lies in strand ST[k] whose chain is its chain, ST[0] == 0 and ST grows by one exactly where the chain changes (one entry per maximal run of one chain; gap-filled neighbours stay in one entry), len(result) == ST[last] + 1. "
+               "(9) __generate_bpseq@numbering (prefix variant at the final return, same invariants as (1)): the rows are 1..N, NUMBERS[NU[0]] == 1, NUMBERS[NU[k+1]] == NUMBERS[NU[k]] + 1 + gapcount(NU[k], NU[k+1]), N == NUMBERS[NU[last]], row x carries the name of its residue "
+               "or '?' - the same rule as (8) shifted by one, over the same NU; lemma same_numbering (SMT, induction): two sequences with A[0] == B[0] + 1 and equal steps satisfy A[k] == B[k] + 1, so POS[k] + 1 == NUMBERS[NU[k]], len(FLAT) == N and FLAT is the sequence column "
+               "(the instantiation across the two functions is meta-level, see ASSUMPTIONS). "
+               "(10) all_dot_brackets (full contract): one text per member of self.bpseq.all_dot_brackets, in order; text d is py_join of the lines LN[d], which are per strand the header, the sequence and the strand's slice of member d's structure (cut exactly like dot_bracket).")
 
 def bounded(tier, seed):
     rng = rng_for(seed, "c06")
